@@ -68,8 +68,14 @@ func phases(thorough bool) []phase {
 	everySite := func(*Site) bool { return true }
 	noCtx := func(s *Site) bool { return s.Ctx == "" && s.Opt == "" }
 	primaryNoCtx := func(s *Site) bool { return s.Ctx == "" && !s.Secondary }
+	// one representative per position family carries the size and history dimensions in the quick tier
+	rep := familyRepresentatives()
+	isRep := func(s *Site) bool { return rep[s.ID] }
+	baseSite := func(s *Site) bool { return s.Ctx == "" && s.Opt == "" && !s.Auto }
 	if !thorough {
 		return []phase{
+			{"history_predecessor_x_probe", historyStrings(), isRep},
+			{"sizes_around_limits", sizeStrings(), isRep},
 			// every position x every option set, and every position x every context template (default options)
 			// (secondary shapes keep only the core templates here; thorough gives them all)
 			{"atoms", atoms, func(s *Site) bool {
@@ -92,6 +98,8 @@ func phases(thorough bool) []phase {
 		}
 	})
 	return []phase{
+		{"history_predecessor_x_probe", historyStrings(), baseSite},
+		{"sizes_around_limits", sizeStrings(), baseSite},
 		{"atoms", atoms, everySite},
 		{"pairs_of_critical_atoms", critPairs, everySite},
 		{"pairs_with_a_critical_atom", crit1Pairs, func(s *Site) bool { return s.Ctx == "" || (!s.Secondary && s.CtxCore) }},
@@ -99,6 +107,26 @@ func phases(thorough bool) []phase {
 		{"all_pairs", allPairs, noCtx},
 		{"triples_of_core_atoms", triples, primaryNoCtx},
 	}
+}
+
+// familyRepresentatives: the first primary base site of every position family (any base site if it has no primary).
+func familyRepresentatives() map[string]bool {
+	best := map[string]*Site{}
+	for i := range sites {
+		s := &sites[i]
+		if s.Ctx != "" || s.Opt != "" || s.Auto || s.NotInSQL || s.Quote.Only != nil {
+			continue
+		}
+		b := best[s.Group]
+		if b == nil || (b.Secondary && !s.Secondary) {
+			best[s.Group] = s
+		}
+	}
+	out := map[string]bool{}
+	for _, s := range best {
+		out[s.ID] = true
+	}
+	return out
 }
 
 // enumerate calls f for every case in priority order; idx is the case number.
